@@ -334,6 +334,11 @@ func (vfs *MemFS) Link(oldname, newname string) error {
 		return &os.LinkError{Op: op, Old: oldname, New: newname, Err: nerr}
 	}
 
+	if !pi.IsLast() {
+		// The parent directory of newname does not exist.
+		return &os.LinkError{Op: op, Old: oldname, New: newname, Err: nerr}
+	}
+
 	nParent.mu.Lock()
 	defer nParent.mu.Unlock()
 
@@ -774,7 +779,7 @@ func (vfs *MemFS) Rename(oldpath, newpath string) error {
 	}
 
 	nParent, nChild, nPI, nErr := vfs.searchNode(newpath, slmLstat)
-	if nErr != vfs.err.FileExists && !vfs.isNotExist(nErr) {
+	if nErr != vfs.err.FileExists && !vfs.isNotExist(nErr) || vfs.isNotExist(nErr) && !nPI.IsLast() {
 		return &os.LinkError{Op: op, Old: oldpath, New: newpath, Err: nErr}
 	}
 
@@ -913,7 +918,7 @@ func (vfs *MemFS) Symlink(oldname, newname string) error {
 	const op = "symlink"
 
 	parent, _, pi, nerr := vfs.searchNode(newname, slmLstat)
-	if !vfs.isNotExist(nerr) {
+	if !vfs.isNotExist(nerr) || !pi.IsLast() {
 		return &os.LinkError{Op: op, Old: oldname, New: newname, Err: nerr}
 	}
 
